@@ -21,7 +21,7 @@ from pv import c22_gen
 TIERS = {
     # maxlen: history length; nsample: histories kept per invoke and setting
     # for each length >= 2; H range of the run-time maximum halo depth
-    "quick": {"maxlen": 2, "nsample": 10, "hmin": 1, "hmax": 3},
+    "quick": {"maxlen": 2, "nsample": 4, "hmin": 1, "hmax": 3},
     "thorough": {"maxlen": 3, "nsample": 120, "hmin": 1, "hmax": 4},
 }
 
@@ -137,13 +137,44 @@ def match_gh_write_annexed(case, clause, detail, finding):
         if wit["st"]["ann"] or wit["st"]["pend"] != "none":
             return False
         reads = [a for a in step["acc"] if a["a"] != "write"]
-        if not reads or any(a["a"] != "read" or a["st"] or a["m"] != 1
-                            for a in reads):
+        if not reads or any(a["a"] != "read" or a["st"] for a in reads):
             return False
     return True
 
 
-MATCHERS = {"c22_gh_write_reads_stale_annexed": match_gh_write_annexed}
+def match_inc_to_max_depth(case, clause, detail, finding):
+    '''A continuous field is incremented (gh_inc) by a loop over cells to the
+    *maximum* halo depth, so levels 1..H-1 must be clean; its previous writer
+    in the invoke cleaned it to a literal depth only and no exchange stands
+    between them (required() reads "maximum depth - 1" as literal depth 0).'''
+    if clause != "NoDirtyRead" or not detail or not detail.get("witnesses"):
+        return False
+    for wit in detail["witnesses"]:
+        pos = wit["pos"] - 1
+        step = case["steps"][pos]
+        if not (step["k"] == "loop" and step["kind"] == "cell"
+                and step["ub"] == "halo" and step["d"] == {"t": "H"}):
+            return False
+        if wit["why"] != "halo" or [a["a"] for a in step["acc"]] != ["inc"]:
+            return False
+        hmax = wit["w"]["val"]["H"]
+        if not wit["st"]["halo"] < hmax - 1 or wit["st"]["pend"] != "none":
+            return False
+        # previous writer: a loop to a literal depth >= 1, no exchange between
+        prev = None
+        for s in reversed(case["steps"][:pos]):
+            if s["k"] in ("hex", "hexs", "hexf"):
+                return False
+            if s["k"] == "loop" and any(a["a"] != "read" for a in s["acc"]):
+                prev = s
+                break
+        if prev is None or prev["d"]["t"] != "lit" or prev["d"]["v"] < 1:
+            return False
+    return True
+
+
+MATCHERS = {"c22_gh_write_reads_stale_annexed": match_gh_write_annexed,
+            "c22_inc_to_max_depth_after_literal_writer": match_inc_to_max_depth}
 
 _TLC_KEYS = {"loop": ("k", "kind", "ub", "d", "acc"), "hex": ("k", "g", "e"),
              "hexs": ("k", "g", "e"), "hexf": ("k", "g", "e"),
@@ -201,18 +232,34 @@ def validate(cases, hmin, hmax, tmp, cov, workers=None, tag="cases"):
 def generate(tier, cov, procs=None, files=None):
     '''-> (distinct projected cases, origins per case)'''
     par = TIERS[tier]
+    if files is None and os.environ.get("PV_C22_FILES"):
+        # restricted corpus (binding demonstrations on a loaded machine)
+        files = [f for f in os.environ["PV_C22_FILES"].split(",") if f]
     files = files or c22_gen.list_files()
-    jobs = [(f, par["maxlen"], par["nsample"], core.seed(), False) for f in files]
+    # one job per (file, COMPUTE_ANNEXED_DOFS setting); big files first
+    tdir = c22_gen.test_dir()
+    files = sorted(files, key=lambda f: (-os.path.getsize(os.path.join(tdir, f)), f))
+    jobs = [(f, par["maxlen"], par["nsample"], core.seed(), (ann,))
+            for f in files for ann in (False, True)]
+    # import PSyclone before forking so that the workers inherit it
+    import psyclone.parse.algorithm      # noqa
+    import psyclone.psyGen               # noqa
+    import psyclone.transformations      # noqa
+    import psyclone.dynamo0p3            # noqa
     results = core.pool_map(c22_gen.work, jobs, procs=procs, chunksize=1)
     index = {}
     cases = []
     origins = []
+    results.sort(key=lambda r: r["file"])          # jobs were ordered by size
+    seen = set()
     for r in results:
-        cov["algorithm_files"] += 1
+        first = r["file"] not in seen
+        seen.add(r["file"])
+        cov["algorithm_files"] += first
         if r["parse_error"]:
-            cov["files_rejected_by_psyclone"] += 1
+            cov["files_rejected_by_psyclone"] += first
             continue
-        cov["invokes"] += r["invokes"]
+        cov["invokes"] += r["invokes"] if first else 0
         cov["layers_generated"] += r["layers"]
         cov["histories_refused"] += r["refused"]
         cov["refused_at_code_generation"] += r["generr"]
@@ -314,3 +361,79 @@ def run(tier):
         "discontinuous space are not physical: unsupported",
         "kernel metadata (access, space, stencil, mesh) is read from the "
         "schedule; everything else from the generated Fortran text"])
+
+
+# ------------------------------------------------ binding demonstration (B)
+def corruption_demo(files=("4.8_multikernel_invokes.f90",
+                           "15.7.3_setval_X_before_user_kern.f90",
+                           "14.4_halo_vector.f90")):
+    '''Trace-corruption test: take the step sequences itemised from correct
+    PSy layers (accepted by TLC) and corrupt one recorded field; TLC must
+    reject.  Returns {corruption: (rejected sequences, corrupted sequences)}.'''
+    import collections
+    import copy
+    core.setup_psyclone_env()
+    cov = collections.defaultdict(int)
+    cov.update({"unsupported_reasons": {}, "unsupported_samples": [],
+                "codegen_refusal_samples": []})
+    saved = dict(TIERS["quick"])
+    TIERS["quick"].update(maxlen=1, nsample=0)
+    try:
+        cases, _ = generate("quick", cov, files=list(files))
+    finally:
+        TIERS["quick"].update(saved)
+    tmp = core.mktemp("pv-c22-")
+    res = {}
+    try:
+        bad = validate(cases, 1, 3, tmp, cov, tag="orig")
+        good = [c for i, c in enumerate(cases) if i not in bad]
+
+        def drop_hex(c):
+            idx = [i for i, s in enumerate(c["steps"]) if s["k"] == "hex"]
+            if not idx:
+                return None
+            c = copy.deepcopy(c)
+            del c["steps"][idx[0]]
+            return c
+
+        def clean_deeper(c):
+            idx = [i for i, s in enumerate(c["steps"]) if s["k"] == "dirty"]
+            if not idx:
+                return None
+            c = copy.deepcopy(c)
+            c["steps"].insert(idx[-1] + 1, {"k": "clean",
+                                            "e": {"t": "lit", "v": 1}})
+            return c
+
+        def loop_deeper(c):
+            idx = [i for i, s in enumerate(c["steps"]) if s["k"] == "loop"
+                   and s["kind"] == "cell" and s["d"]["t"] == "lit"
+                   and any(a["a"] == "read" for a in s["acc"])]
+            if not idx:
+                return None
+            c = copy.deepcopy(c)
+            c["steps"][idx[0]]["d"] = {"t": "lit",
+                                       "v": c["steps"][idx[0]]["d"]["v"] + 1}
+            c["steps"][idx[0]]["ub"] = "halo"
+            return c
+
+        for name, fn in (("halo_exchange dropped", drop_hex),
+                         ("set_clean(1) added after set_dirty", clean_deeper),
+                         ("reading loop one level deeper", loop_deeper)):
+            mut = [m for m in (fn(c) for c in good) if m is not None]
+            # a corrupted sequence may coincide with another correct one
+            texts = {json.dumps(c, sort_keys=True) for c in good}
+            mut = [m for m in mut if json.dumps(m, sort_keys=True) not in texts]
+            b = validate(mut, 1, 3, tmp, cov, tag="mut")
+            res[name] = (len(b), len(mut))
+    finally:
+        shutil.rmtree(tmp, ignore_errors=True)
+    return res
+
+
+if __name__ == "__main__":
+    import sys
+    if sys.argv[1:] == ["corrupt"]:
+        for k, (rej, tot) in corruption_demo().items():
+            print(f"corruption '{k}': {rej} of {tot} corrupted step "
+                  f"sequences rejected by TLC")
